@@ -214,8 +214,13 @@ let do_searchseq (t : string list) : string =
          let pv = String.concat "" (List.map (fun m -> move_fields m ^ ",") (take (min pvlen0 64) row0)) in
          let best = (match row0 with m :: _ -> move_fields m | [] -> "?") in
          let rep_same = (int_of_nat e.ridx = nh && take nh e.rtab = hist) in
-         let endl = Printf.sprintf "END ply=%d rep=%d stopping=%s nodes=%s pvlen=%d pv=%s best=%s GAME_SAME=1 REP_SAME=%s"
-             (int_of_nat e.ply) (int_of_nat e.ridx) (b2s e.stopping) (string_of_n e.nodes) pvlen0 pv best (b2s rep_same) in
+         (* largest number of nodes between consecutive polls (trace is newest first) *)
+         let poll_nodes = List.rev (List.filter_map (function EPoll (_, n, _) -> Some (int_of_string (string_of_n n)) | _ -> None) e.trace) in
+         let final_nodes = int_of_string (string_of_n e.nodes) in
+         let (lastp, mg) = List.fold_left (fun (lp, mg) n -> (n, max mg (n - lp))) (0, 0) poll_nodes in
+         let maxgap = max mg (final_nodes - lastp) in
+         let endl = Printf.sprintf "END ply=%d rep=%d stopping=%s nodes=%s pvlen=%d pv=%s best=%s maxgap=%d GAME_SAME=1 REP_SAME=%s"
+             (int_of_nat e.ply) (int_of_nat e.ridx) (b2s e.stopping) (string_of_n e.nodes) pvlen0 pv best maxgap (b2s rep_same) in
          let evs = List.rev_map render_event e.trace in
          let tr =
            if trace = 2 then String.concat " ;; " evs
